@@ -107,7 +107,10 @@ def check_row_ids(chk, rep, repo, only=None, floor=3):
             continue
         if only is not None and fi.qual not in only:
             continue
-        w = Walker(repo, fi, self_class=fi.cls, inline=lambda f: False)
+        if only is not None and fi.cls:
+            w = model_walk(repo, fi.cls, fi.name)  # with the entry point's private helpers inlined
+        else:
+            w = Walker(repo, fi, self_class=fi.cls, inline=lambda f: False)
         for ev in w.events:
             if not (ev.kind == "call" and ev.name == "__new__" and ev.value[0] == "new" and ev.value[1] == "Node"):
                 continue
@@ -226,6 +229,14 @@ def check_constructor_forwarding(rep, repo):
            "the KNN subgraph must be built from the caller's arrays and index array")
 
 
+def _nested_index(events):
+    """D[i, j] on a freshly allocated 2-D array is D[i][j]."""
+    import dataclasses
+    return [dataclasses.replace(e, target=("idx", ("idx", e.target[1], e.target[2][1][0]), e.target[2][1][1]))
+            if e.kind == "store" and e.target[0] == "idx" and e.target[1][0] == "alloc" and e.target[2][0] == "tuple"
+            and len(e.target[2][1]) == 2 and all(x[0] != "slice" for x in e.target[2][1]) else e for e in events]
+
+
 def check_builders(chk, rep, repo):
     # pre_compute_distance
     fi = repo.need_function("opfython.math.general", "pre_compute_distance")
@@ -233,7 +244,7 @@ def check_builders(chk, rep, repo):
     acc = registry_accessor(repo)
     same = _private_same_module(fi)
     w = Walker(repo, fi, inline=lambda f: same(f) or acc(f))
-    st = [e for e in w.events if e.kind == "store" and e.target[0] == "idx" and e.target[1][0] == "idx"
+    st = [e for e in _nested_index(w.events) if e.kind == "store" and e.target[0] == "idx" and e.target[1][0] == "idx"
           and e.target[1][1][0] == "alloc"]
     ok = False
     detail = "expected distances[i][j] = DISTANCES[distance](data[i], data[j]) for all i, j in range(len(data))"
@@ -281,7 +292,7 @@ def check_builders(chk, rep, repo):
     w = model_walk(repo, "OPF", "get_distances")
     fi = w.entry
     G = ("attr", ("self",), "subgraph")
-    st = [e for e in w.events if e.kind == "store" and e.target[0] == "idx" and e.target[1][0] == "idx"
+    st = [e for e in _nested_index(w.events) if e.kind == "store" and e.target[0] == "idx" and e.target[1][0] == "idx"
           and e.target[1][1][0] == "alloc"]
     ok = False
     if len(st) == 1 and len(st[0].loops) == 2:
@@ -461,7 +472,9 @@ def check_constructor_config(rep, repo):
     rep.fn("INIT-read", fi, "the matrix is read from the given file when (and only when) one was given", okr,
            f"_read_distances calls: {[e.text()[:70] for e in rd]}")
     none = [e for e in w.events if e.kind == "store" and e.target == ("attr", ("self",), "pre_distances")]
-    okn = all(e.value == ("const", None) and under(e, absent) for e in none)
+    # (a default `None` assigned first, unconditionally, and overwritten by the guarded read is the same configuration)
+    okn = all(e.value == ("const", None) and (under(e, absent) or (not e.guards and not e.loops and rd and e.seq < rd[0].seq))
+              for e in none)
     rep.fn("INIT-matrix", fi, "no matrix is kept when no file was given", okn and len(none) <= 1,
            f"stores to pre_distances: {[e.text()[:60] for e in none]}")
     # _read_distances stores what it loaded
